@@ -148,6 +148,7 @@ func baseTok(base string) string {
 func (h *harness) decodeCompare(what string, doc *JV, mode11 bool, base string, want []rdf.Quad) {
 	text := doc.text()
 	line := fmt.Sprintf("jl.tordf %s %s %s", modeTok(mode11), baseTok(base), doc.wire())
+	h.stable(line)
 	h.add(line, func(model string) {
 		desc := fmt.Sprintf("%s mode=%s base=%q doc=%s", what, modeTok(mode11), base, text)
 		h.rep.Count("op:tordf")
